@@ -584,13 +584,14 @@ def r4(ctx):
     # wherever in the materializer the stateful evaluator is called (a small method of its own today)
     evs = [g for q, g in P.functions.items() if q.startswith(MAT + ".") and not isinstance(g.node, ast.Lambda)
            and any(isinstance(c, ast.Call) and dotted(c.func) == "stateful_eval" for c in walk_no_nested(g.node))]
-    if len(evs) != 1:
-        raise AnalysisError(f"C04.R4: the stateful_eval call of the materializer was not found ({[g.qualname for g in evs]})")
+    if not evs:
+        raise AnalysisError("C04.R4: the stateful_eval call of the materializer was not found")
     ev = evs[0]
-    c = [c for c in ast.walk(ev.node) if isinstance(c, ast.Call) and dotted(c.func) == "stateful_eval"]
+    c = [c for g in evs for c in walk_no_nested(g.node) if isinstance(c, ast.Call) and dotted(c.func) == "stateful_eval"]
     sefn = se.node
-    ok = len(c) == 1 and norm(arg_for(c[0], sefn, "state") or ast.Constant(0)) == "spec.transform_state" and norm(arg_for(c[0], sefn, "spec") or ast.Constant(0)) == "spec" \
-        and norm(arg_for(c[0], sefn, "env") or ast.Constant(0)) == "self.layered_context"
+    # (the normal form may show the call twice: in the small helper and where that helper is inlined — each is held to the rule)
+    ok = bool(c) and all(norm(arg_for(x, sefn, "state") or ast.Constant(0)) == "spec.transform_state" and norm(arg_for(x, sefn, "spec") or ast.Constant(0)) == "spec"
+                         and norm(arg_for(x, sefn, "env") or ast.Constant(0)) == "self.layered_context" for x in c)
     ctx.check(ok, "C04.R4", "factor evaluation threads the spec's own transform_state", ev.where, ctx.construct(ev, text="stateful_eval args"),
               f"stateful_eval is called as `{norm(c[0])[:120] if c else None}`")
 
